@@ -87,6 +87,71 @@ def gen_steady(rng) -> dict:
     return {"template": t, "rxns": rxns, "pools": pools, "lv": lv, "maps": maps}
 
 
+# templates whose reactions carry stoichiometric coefficients of magnitude >= 2 (2 A -> B, B -> 2 C, 3 A -> B, -> 2 A, 2 A -> ):
+# both mappers expand a coefficient k into k copies of the compound's atom positions (k occurrences in the mass-action rate,
+# the flux drains a substrate position k times / feeds k product copies).  Drawn from an OWN random stream ("c16-coef"), so the
+# unit-coefficient families above see the same inputs as before.
+COEF_TEMPLATES = ["dimer", "double", "dimer-double", "dimer-merge", "double-split", "influx2", "efflux2", "triple", "dimer-reversible",
+                  "dimer-to-two"]
+
+
+def gen_coef_steady(rng) -> dict:
+    t = rng.choice(COEF_TEMPLATES)
+    J, K = rng.randint(1, 3), rng.randint(1, 2)
+    A, B, C, D = rng.sample(["c1", "c2", "c3", "c4"], 4)
+
+    def mix(side):
+        side = list(side)
+        rng.shuffle(side)  # [A, B, A]: the rate names the compounds interleaved, the stoichiometry dict declares them by first mention
+        return side
+
+    if t == "dimer":  # 2 A -> B
+        rx = [([], [A], 2 * J), ([A, A], [B], J), ([B], [], J)]
+    elif t == "double":  # A -> 2 B
+        rx = [([], [A], J), ([A], [B, B], J), ([B], [], 2 * J)]
+    elif t == "dimer-double":  # 2 A -> B -> 2 C
+        rx = [([], [A], 2 * J), ([A, A], [B], J), ([B], [C, C], J), ([C], [], 2 * J)]
+    elif t == "dimer-merge":  # 2 A + B -> C
+        rx = [([], [A], 2 * J), ([], [B], J), (mix([A, A, B]), [C], J), ([C], [], J)]
+    elif t == "double-split":  # A -> 2 B + C
+        rx = [([], [A], J), ([A], mix([B, B, C]), J), ([B], [], 2 * J), ([C], [], J)]
+    elif t == "influx2":  # -> 2 A (two external molecules per turnover)
+        rx = [([], [A, A], J), ([A], [B], 2 * J), ([B], [], 2 * J)]
+    elif t == "efflux2":  # 2 A -> (both copies leave)
+        rx = [([], [A], 2 * J), ([A, A], [], J)]
+    elif t == "triple":  # 3 A -> B
+        rx = [([], [A], 3 * J), ([A, A, A], [B], J), ([B], [], J)]
+    elif t == "dimer-reversible":  # 2 A <-> B as two reactions
+        rx = [([], [A], 2 * J), ([A, A], [B], J + K), ([B], [A, A], K), ([B], [], J)]
+    else:  # dimer-to-two: 2 A -> B + C with D as a carrier: 2 A + D -> B ; B -> C + D
+        rx = [([], [A], 2 * J), (mix([A, A, D]), [B], J), ([B], mix([C, D]), J), ([C], [], J)]
+    cpds = sorted({c for s, p, _ in rx for c in s + p})
+    pools = {c: rng.choice([1, 2, 4, 8]) for c in cpds}
+    lv = {c: rng.choice([1, 1, 2, 2, 3]) for c in cpds}
+    # keep the isotopomer model small: at most 6 substrate atoms per reaction (2^6 patterns)
+    while max(sum(lv[c] for c in s) for s, _, _ in rx) > 6:
+        c = max(lv, key=lambda k: (lv[k], k))
+        lv[c] -= 1
+    rxns, maps = [], {}
+    for j, (s, p, v) in enumerate(rx):
+        name = f"v{40 + j}"
+        rxns.append((name, list(s), list(p), v))
+        n = max(sum(lv[c] for c in s), sum(lv[c] for c in p))
+        kind = rng.choice(["perm", "perm", "perm", "id", "invol"])
+        m = list(range(n))
+        if kind == "perm":
+            rng.shuffle(m)
+        elif kind == "invol" and n >= 2:
+            a, b = rng.sample(range(n), 2)
+            m[a], m[b] = m[b], m[a]
+        maps[name] = m
+    if rng.random() < 0.5:
+        items = list(maps.items())
+        rng.shuffle(items)
+        maps = dict(items)
+    return {"template": "coef-" + t, "rxns": rxns, "pools": pools, "lv": lv, "maps": maps}
+
+
 # minimised witness of the repaired direction defect (fixes/C16-map-direction.diff): runs first on every run
 REGRESSION_NETS = [
     {"template": "regression-3cycle", "rxns": [("v40", [], ["c1"], 1), ("v41", ["c1"], ["c2"], 1), ("v42", ["c2"], [], 1)],
@@ -106,8 +171,43 @@ REGRESSION_NETS = [
 ]
 
 
+# corpus of the coefficient family (runs first in that family on every run): the network of seeded/C16-4 (2 c1 -> c2 -> 2 c3 with
+# non-involutive maps, dyadic pools) and the smallest homodimer / doubling reactions
+COEF_CORPUS_NETS = [
+    {"template": "coef-corpus-dimer-double",
+     "rxns": [("v40", [], ["c1"], 2), ("v41", ["c1", "c1"], ["c2"], 1), ("v42", ["c2"], ["c3", "c3"], 1), ("v43", ["c3"], [], 2)],
+     "pools": {"c1": 2, "c2": 1, "c3": 2}, "lv": {"c1": 2, "c2": 4, "c3": 2},
+     "maps": {"v40": [1, 0], "v41": [2, 0, 3, 1], "v42": [3, 1, 0, 2], "v43": [1, 0]},
+     "dists": [{"c1__00": 0, "c1__01": 1, "c1__10": 1, "c1__11": 0,
+                **{f"c2__{a}{b}{c}{d}": int((a, b, c, d) == (1, 0, 0, 0)) for a in (0, 1) for b in (0, 1) for c in (0, 1) for d in (0, 1)},
+                "c3__00": 1, "c3__01": 0, "c3__10": 1, "c3__11": 0}]},
+    {"template": "coef-corpus-dimer",
+     "rxns": [("v40", [], ["c1"], 2), ("v41", ["c1", "c1"], ["c2"], 1), ("v42", ["c2"], [], 1)],
+     "pools": {"c1": 1, "c2": 1}, "lv": {"c1": 1, "c2": 2}, "maps": {"v40": [0], "v41": [1, 0], "v42": [0, 1]},
+     "dists": [{"c1__0": 0, "c1__1": 1, "c2__00": 1, "c2__01": 0, "c2__10": 0, "c2__11": 0}]},
+    {"template": "coef-corpus-double",
+     "rxns": [("v40", [], ["c2"], 1), ("v41", ["c2"], ["c1", "c1"], 1), ("v42", ["c1"], [], 2)],
+     "pools": {"c1": 1, "c2": 1}, "lv": {"c1": 1, "c2": 2}, "maps": {"v40": [0, 1], "v41": [1, 0], "v42": [0]},
+     "dists": [{"c1__0": 1, "c1__1": 0, "c2__00": 0, "c2__01": 0, "c2__10": 1, "c2__11": 0}]},
+]
+
+
+def side_counts(side: list[str]) -> dict[str, int]:
+    """[A, B, A] -> {A: 2, B: 1}: stoichiometric multiplicity of a reaction side, in order of first mention."""
+    d: dict[str, int] = {}
+    for c in side:
+        d[c] = d.get(c, 0) + 1
+    return d
+
+
+def stoich_of(s: list[str], p: list[str]) -> dict[str, int]:
+    """Stoichiometry dict of a reaction whose sides are MULTISETS (a compound named k times has coefficient -k / +k)."""
+    return {c: -n for c, n in side_counts(s).items()} | {c: n for c, n in side_counts(p).items()}
+
+
 def steady_models(net: dict, ext):
-    """Build the base model (dyadic rate constants so that flux = k * prod(pools)), both label models."""
+    """Build the base model (dyadic rate constants so that flux = k * prod(pools)), both label models.
+    A compound listed k times on a side has the stoichiometric coefficient k and enters the mass-action rate k times."""
     import pandas as pd
 
     from mxlpy import LabelMapper, LinearLabelMapper, Model
@@ -120,8 +220,7 @@ def steady_models(net: dict, ext):
             denom *= net["pools"][c]
         k = Fraction(v, denom)
         m.add_parameter(f"p{20 + j}", float(k))
-        st = {c: -1 for c in s} | {c: 1 for c in p}
-        m.add_reaction(name, fn=L.PROD[len(s) + 1], args=[*s, f"p{20 + j}"], stoichiometry=st)
+        m.add_reaction(name, fn=L.PROD[len(s) + 1], args=[*s, f"p{20 + j}"], stoichiometry=stoich_of(s, p))
     maps = {k: list(v) for k, v in net["maps"].items()}
     iso = LabelMapper(m, label_variables=dict(net["lv"]), label_maps=maps).build_model()
     lin = LinearLabelMapper(m, label_variables=dict(net["lv"]), label_maps=maps).build_model(
@@ -157,7 +256,7 @@ def oracle_steady(net: dict, dists: list[dict[str, int]], exts=(Fraction(0), Fra
 
     tag, val = build(1)
     if tag != "ok":
-        return [(f"a valid steady-state network with bijective maps is rejected: {val}", None)]
+        return [(f"{net.get('template', '?')} maps {net['maps']}: a valid steady-state network with bijective maps is rejected: {val}", None)]
     base, iso, lin = val
     iso_vars, lin_vars = iso.get_variable_names(), lin.get_variable_names()
     for x in dists:
@@ -255,7 +354,7 @@ def steady_as_case(net: dict, ext=Fraction(1)) -> dict:
         "dpars": [],
         "vars": dict(net["pools"]),
         "dvars": [],
-        "rxns": [(name, "FProd", [*s, f"p{20 + j}"], {c: -1 for c in s} | {c: 1 for c in p}) for j, (name, s, p, _v) in enumerate(net["rxns"])],
+        "rxns": [(name, "FProd", [*s, f"p{20 + j}"], stoich_of(s, p)) for j, (name, s, p, _v) in enumerate(net["rxns"])],
     }
     return {
         "base": base, "lv": net["lv"], "maps": net["maps"], "init": None, "concs": dict(net["pools"]),
@@ -292,7 +391,7 @@ def corr_file(cases: list[str]) -> str:
         + defs
         + "\nDefinition cases : list lin_case := "
         + common.clist(f"case_{i}" for i in range(len(cases)))
-        + ".\nDefinition mismatches := filter_idx (fun c => negb (check_lin (f_lin_dir gen_label_facts) c)) cases.\n"
+        + ".\nDefinition mismatches := filter_idx (fun c => negb (check_lin (f_lin_expand gen_label_facts) (f_lin_dir gen_label_facts) c)) cases.\n"
         "Eval vm_compute in mismatches.\n"
     )
 
@@ -313,7 +412,9 @@ def check(run: Run) -> None:
     run.rule = (
         "oracle: flux-balanced mass-action networks from 7 templates (chain, 3-chain, split, merge, branch, reversible pair, carrier "
         "cycle) x pools in {1,2,4,8} x label counts 1-3 x random bijective maps (random permutation / identity / transposition) x 3 "
-        "random integer isotopomer distributions with the steady-state totals x external label in {0,1/2,1,2}; correspondence: random "
+        "random integer isotopomer distributions with the steady-state totals x external label in {0,1/2,1,2}; coefficient family (own "
+        "stream c16-coef): 3 corpus nets + 10 templates with stoichiometric coefficients 2 and 3 on either side (2A->B, A->2B, 2A->B->2C, "
+        "2A+B->C, A->2B+C, ->2A, 2A->, 3A->B, 2A<->B, 2A+D->B->C+D), rate arguments interleaved, same maps / distributions; correspondence: random "
         "networks (as for C05) x arbitrary maps incl. malformed x pools/fluxes/external label x initial labels, right-hand sides at "
         "dyadic states. Non-trivial: at least one mapped reaction; distinct by content"
     )
@@ -325,7 +426,9 @@ def check(run: Run) -> None:
         "modelled, not verified: Model.add_* / get_right_hand_side incl. evaluation of Derived stoichiometric coefficients, pandas "
         "Series.to_dict, Python list assignment with negative indices, zip(strict=True)",
         "position maps that are not bijections of range(max(substrate atoms, product atoms)) are outside the judged domain (an atom "
-        "cannot be duplicated); merges and splits of COMPOUNDS are covered",
+        "cannot be duplicated); merges and splits of COMPOUNDS and stoichiometric coefficients of magnitude 2 and 3 on either side are covered",
+        "the keys-only expansion model (fact ExpKeysOnly, lin_rxns_x) is a recognised regression shape: on the tree the fact is ExpDuplicated "
+        "and build_linear_x reduces to build_linear, the model of the theorems",
         "binary64 evaluation assumed exact on the dyadic values used (pools are powers of two)",
     ]
     rng = common.rng_for(run.seed, "c16")
@@ -343,8 +446,22 @@ def check(run: Run) -> None:
             nets.append(net_from_json(f["witness"]["net"]))
     for _ in range(1200 if thorough else 160):
         nets.append(gen_steady(rng))
-    for net in nets:
-        dists = list(net.get("dists", [])) + [gen_distribution(rng, net) for _ in range(3)]
+    # coefficient family: own random stream, so the unit-coefficient inputs above do not depend on it
+    rng2 = common.rng_for(run.seed, "c16-coef")
+    coef_nets = [dict(n) for n in COEF_CORPUS_NETS] + [gen_coef_steady(rng2) for _ in range(500 if thorough else 70)]
+    dist["coefficient_family"] = {"nets": len(coef_nets), "reactions_with_coefficient_ge_2": 0, "substrate_side": 0, "product_side": 0}
+    n_unit = len(nets)
+    n_coef_cases = 0
+    for pos, net in enumerate(nets + coef_nets):
+        is_coef = pos >= n_unit
+        r_ = rng2 if is_coef else rng
+        if is_coef:
+            for _n, s_, p_, _v in net["rxns"]:
+                ms, mp = max(side_counts(s_).values(), default=0), max(side_counts(p_).values(), default=0)
+                dist["coefficient_family"]["reactions_with_coefficient_ge_2"] += int(max(ms, mp) >= 2)
+                dist["coefficient_family"]["substrate_side"] += int(ms >= 2)
+                dist["coefficient_family"]["product_side"] += int(mp >= 2)
+        dists = list(net.get("dists", [])) + [gen_distribution(r_, net) for _ in range(3)]
         dist["templates"][net.get("template", "?")] = dist["templates"].get(net.get("template", "?"), 0) + 1
         inv = all(is_involution(m) for m in net["maps"].values())
         dist["involutive_only" if inv else "with_noninvolutive_map"] += 1
@@ -356,7 +473,11 @@ def check(run: Run) -> None:
             if n_viol < 5:
                 n_viol += 1
                 run.violation(f"LinearLabelMapper vs LabelMapper: {what}", {"kind": "steady", "net": net, "dists": dists})
-        if len(cases) < (400 if thorough else 60):
+        if is_coef:
+            if n_coef_cases < (200 if thorough else 40):
+                n_coef_cases += 1
+                cases.append(steady_as_case(net, rng2.choice([Fraction(1), Fraction(1, 2)])))
+        elif len(cases) < (400 if thorough else 60):
             cases.append(steady_as_case(net, rng.choice([Fraction(1), Fraction(1, 2)])))
     # (b) correspondence cases
     for _ in range(5000 if thorough else 600):
